@@ -14,7 +14,7 @@ pub fn constructor_order_qa(source_unit: SourceUnit) -> HashSet<Loc> {
     let target_nodes =
         ast::extract_target_from_node(Target::FunctionDefinition, source_unit.into());
 
-    let mut fn_counter: u8 = 0; // up to 256 function definitions before reaching the constructor function
+    let mut fn_counter: usize = 0; // number of function definitions before reaching the constructor function
 
     //For each target node that was extracted, check for the qa patterns
     for _node in target_nodes {
